@@ -94,10 +94,8 @@ def reinterpret_expr(expr, symbols_from, symbols_to):
             elif op == OP_CONSTPOW:
                 work[o[0]] = work[i[0]]**work[i[1]]
             else:
-                print('Unknown operation: ', op)
-
-                print('------')
-                print('Evaluated ' + str(f))
+                # Silently skipping the operation would leave the expression half-evaluated
+                raise Exception("Operation %d of '%s' cannot be reinterpreted: only polynomial expressions (+, -, *, powers with constant exponent) are supported here, e.g. in constraints with grid='inf'." % (op, str(f.instruction_MX(k))))
 
     return output_val[0]
 
